@@ -64,6 +64,14 @@ fn main() {
             let code = run_property(p.as_ref(), &RunOpts { tier, seed, jobs, cases_override: cases });
             std::process::exit(code);
         }
+        "seeds" => {
+            // pv seeds <ID> <dir> <n> [seed]
+            let Some(p) = args.get(1).and_then(|i| pv::props::by_id(i)) else { usage() };
+            let dir = std::path::PathBuf::from(args.get(2).cloned().unwrap_or_else(|| usage()));
+            let n: u32 = args.get(3).and_then(|s| s.parse().ok()).unwrap_or(64);
+            let seed: u64 = args.get(4).and_then(|s| s.parse().ok()).unwrap_or(1);
+            pv::engine::write_seeds(p.as_ref(), &dir, n, seed);
+        }
         "c07-digest" => {
             let seed: u64 = args.get(1).and_then(|s| s.parse().ok()).unwrap_or(1);
             let n: usize = args.get(2).and_then(|s| s.parse().ok()).unwrap_or(10);
